@@ -50,6 +50,15 @@ type vpMatrixModel struct {
 // vpMkTuple builds a tuple whose arity is within one of `around` (shorter,
 // equal, longer - the three cases of the arity checks) with 1-byte dimension
 // names (names are only ever compared for equality).
+// vpC11DimName: a one-byte dimension name, or (configurations with anon=1) also
+// the empty name of the anonymous dimension.
+func vpC11DimName() string {
+	if vpParam("anon") != 0 {
+		return vpStrUpTo(1, "a-d")
+	}
+	return vpStr(1, "a-d")
+}
+
 func vpMkTuple(around int) vpTuple {
 	lo := around - 1
 	if lo < 0 {
@@ -58,7 +67,7 @@ func vpMkTuple(around int) vpTuple {
 	n := vpInt(lo, around+1)
 	var t vpTuple
 	for i := 0; i < n; i++ {
-		name := vpStr(1, "a-d")
+		name := vpC11DimName()
 		_, dup := t.get(name)
 		vpAssume(!dup)
 		t.names = append(t.names, name)
@@ -79,7 +88,7 @@ func vpMkMatrix(dims, adjs int) (*Matrix, vpMatrixModel) {
 	m := &Matrix{Setup: MatrixSetup{}}
 	nd := vpInt(0, dims)
 	for i := 0; i < nd; i++ {
-		name := vpStr(1, "a-d")
+		name := vpC11DimName()
 		for _, d := range mm.dims {
 			vpAssume(d != name)
 		}
@@ -208,28 +217,38 @@ func vpH_c11_step() {
 	m, mm := vpMkMatrix(dims, nadj)
 	p := vpMkTuple(len(mm.dims))
 	want := vpMatrixSpec(mm, p)
+	// with tokens (their interpolation can fail on its own) or without (then a
+	// rejection can only come from validation)
+	cmd, label, envv, src, cfgv := "run {{matrix}}", "l {{matrix.a}}", "{{matrix.b}}", "p#{{matrix}}", "{{matrix.a}}"
+	plain := vpBool()
+	if plain {
+		cmd, label, envv, src, cfgv = "run", "l", "v", "p#v1", "c"
+	}
 	step := &CommandStep{
-		Command: "run {{matrix}}",
-		Label:   "l {{matrix.a}}",
+		Command: cmd,
+		Label:   label,
 		Key:     "k",
-		Env:     map[string]string{"E": "{{matrix.b}}"},
-		Plugins: Plugins{{Source: "p#{{matrix}}", Config: map[string]any{"c": "{{matrix.a}}"}}},
+		Env:     map[string]string{"E": envv},
+		Plugins: Plugins{{Source: src, Config: map[string]any{"c": cfgv}}},
 		Matrix:  m,
 	}
 	err := step.InterpolateMatrixPermutation(MatrixPermutation(p.asMap()))
 	if !want {
 		vpAssert(err != nil, "step: a permutation the specification rejects is rejected")
-		vpAssert(step.Command == "run {{matrix}}" && step.Label == "l {{matrix.a}}" && step.Key == "k", "step: rejected permutation leaves command, label, key unmodified")
-		vpAssert(len(step.Env) == 1 && step.Env["E"] == "{{matrix.b}}", "step: rejected permutation leaves env unmodified")
+		vpAssert(step.Command == cmd && step.Label == label && step.Key == "k", "step: rejected permutation leaves command, label, key unmodified")
+		vpAssert(len(step.Env) == 1 && step.Env["E"] == envv, "step: rejected permutation leaves env unmodified")
 		cfg, _ := step.Plugins[0].Config.(map[string]any)
-		vpAssert(step.Plugins[0].Source == "p#{{matrix}}" && len(cfg) == 1 && cfg["c"] == any("{{matrix.a}}"), "step: rejected permutation leaves plugins unmodified")
+		vpAssert(step.Plugins[0].Source == src && len(cfg) == 1 && cfg["c"] == any(cfgv), "step: rejected permutation leaves plugins unmodified")
 		vpAssert(step.Matrix == m, "step: rejected permutation leaves the matrix pointer unmodified")
 		return
 	}
 	// accepted: either every token's dimension exists (applied) or the call
 	// reports unknown tokens; with an empty permutation nothing changes
+	if plain {
+		vpAssert(err == nil && step.Command == cmd && step.Label == label, "step: a permutation the specification accepts is applied without error to a step without tokens, and changes nothing")
+	}
 	if len(p.names) == 0 {
-		vpAssert(err == nil && step.Command == "run {{matrix}}", "step: empty accepted permutation changes nothing")
+		vpAssert(err == nil && step.Command == cmd, "step: empty accepted permutation changes nothing")
 	}
 }
 
